@@ -17,7 +17,7 @@ from copsim.seams import Poison, fingerprint, sterile
 PROPERTY = 'C20'
 LEVEL = 'exploration'
 TIERS = {
-    'quick': {'runs': 1600, 'wall': 75, 'batch': 10},
+    'quick': {'runs': 1600, 'wall': 150, 'batch': 10},
     'thorough': {'runs': 40000, 'wall': 840, 'batch': 8},
 }
 RULE = ('Each run = one public entry point (fit / pdf / cdf / percent_point / sample with '
